@@ -85,10 +85,10 @@ func c09program(chain *T, k c09kind, n int) []*T {
 		callTxt += " " + k.init
 	}
 	callTxt += ")"
-	return []*T{def, p1(callTxt)}
+	return []*T{def, p1("(list " + callTxt + " gv)")}
 }
 
-func c09prelude() []*T { return Parse(`(defn helper [x] (t 99 x))`) }
+func c09prelude() []*T { return Parse(`(defn helper [x] (t 99 x)) (def gv 0)`) }
 
 type hwm struct{ data, scope, addr, loop int }
 
@@ -98,10 +98,28 @@ func (h hwm) String() string {
 
 // c09space runs the program for depth n on the implementation alone and
 // returns the stack high-water marks sampled at every builtin/function call.
+// c09depthOf finds N in the final form (list (f N ...) gv).
+func c09depthOf(forms []*T) (int64, bool) {
+	if len(forms) == 2 && len(forms[1].L) >= 2 && len(forms[1].L[1].L) >= 2 && forms[1].L[1].L[1].K == 'i' {
+		return forms[1].L[1].L[1].I, true
+	}
+	return 0, false
+}
+
+func c09withDepth(forms []*T, n int64) []*T {
+	call := *forms[1].L[1]
+	call.L = append([]*T{}, forms[1].L[1].L...)
+	call.L[1] = Int(n)
+	outer := *forms[1]
+	outer.L = append([]*T{}, forms[1].L...)
+	outer.L[1] = &call
+	return []*T{forms[0], &outer}
+}
+
 func c09space(c *engine.Ctx, forms []*T, label string) (zy.Res, hwm) {
 	depthArg := int64(1000)
-	if len(forms) == 2 && len(forms[1].L) >= 2 && forms[1].L[1].K == 'i' {
-		depthArg = forms[1].L[1].I
+	if n, ok := c09depthOf(forms); ok {
+		depthArg = n
 	}
 	w := witnessOf(0, nil, forms)
 	c.Begin(w)
@@ -169,7 +187,7 @@ func c09one(c *engine.Ctx, chainName string, chain *T, k c09kind, thorough bool)
 			continue
 		}
 		if k.sum {
-			want := strconv.Itoa(n * (n + 1) / 2)
+			want := "(" + strconv.Itoa(n*(n+1)/2) + " 0)"
 			if res.Val != want {
 				c.Violation("deep-value", "C09/deep-value/"+key, w, fmt.Sprintf("depth %d returned %s, want %s", n, res.Val, want))
 			}
@@ -193,14 +211,19 @@ func clipS(s string, n int) string {
 // positions that are NOT tail positions: the call must be an ordinary call there
 func c09nonTailCtx() []gen.Ctx {
 	return []gen.Ctx{
-		tmpl("nt-and-first", 1, `(and $1 true)`),
-		tmpl("nt-or-first", 1, `(or $1 false)`),
+		// each context does something with the call's value afterwards, so a jump instead of a call changes the result
+		tmpl("nt-and-first", 1, `(and $1 (t 6 77))`),
+		tmpl("nt-or-first", 1, `(or (not $1) (t 6 78))`),
 		tmpl("nt-begin-first", 1, `(begin $1 (t 5 n))`),
-		tmpl("nt-let-binding", 1, `(let [q $1] q)`),
-		tmpl("nt-letseq-binding", 1, `(letseq [q $1 r q] r)`),
-		tmpl("nt-cond-test", 1, `(cond $1 1 2)`),
-		tmpl("nt-argument", 1, `(+ 0 $1)`),
+		tmpl("nt-let-binding", 1, `(let [q $1] (list q n))`),
+		tmpl("nt-letseq-binding", 1, `(letseq [q $1 r q] (list r n))`),
+		tmpl("nt-cond-test", 1, `(cond $1 (t 6 1) (t 7 2))`),
+		tmpl("nt-argument", 1, `(list 0 $1)`),
 		tmpl("nt-array", 1, `[$1]`),
+		tmpl("nt-set-global", 1, `(set gv $1)`),
+		tmpl("nt-def-local", 1, `(begin (def lv $1) (list lv n))`),
+		tmpl("nt-assert", 1, `(begin (assert (not (== 5 $1))) (t 6 n))`),
+		tmpl("nt-hash-value", 1, `(hash k: $1)`),
 		tmpl("nt-for-body", 1, `(begin (def res 0) (for [(def i 0) (< i 1) (set i (+ i 1))] (set res $1)) res)`),
 	}
 }
@@ -305,12 +328,8 @@ func init() {
 				res.tr.Env.Close()
 			}
 			// space: re-run the same shape at 10 and at the witness depth
-			if len(forms) == 2 && len(forms[1].L) >= 2 && forms[1].L[1].K == 'i' {
-				n := forms[1].L[1].I
-				small := *forms[1]
-				small.L = append([]*T{}, forms[1].L...)
-				small.L[1] = Int(10)
-				r0, h0 := c09space(c, []*T{forms[0], &small}, key)
+			if n, ok := c09depthOf(forms); ok {
+				r0, h0 := c09space(c, c09withDepth(forms, 10), key)
 				r1, h1 := c09space(c, forms, key)
 				if !r1.OK() {
 					c.Violation("deep-run-failed", "", w, r1.String())
